@@ -1,5 +1,7 @@
 package coord
 
+import "verif/pkg/instrument"
+
 var codecReal = []string{
 	"tokenizer, parser, validator, generator of the working tree (instrumented scratch copy: map-order seam only)",
 	"iohelp runtime (instrumented: allocation and loop accounting)",
@@ -111,5 +113,16 @@ var Props = map[string]*PropCfg{
 		Runs:     map[string]int{"quick": 4000, "thorough": 60000},
 		Assume:   []string{"reference layout from /verif/pkg/refcodec", "dates restricted to the range int64 nanoseconds represent"},
 		RealStub: map[string][]string{"real": {"iohelp runtime of the working tree (instrumented for allocation/step accounting only)"}, "stub": {"the byte stream: simnet link with chunk schedule and fault trace", "reference layout"}},
+	},
+	"C10": {
+		ID: "C10", Level: "fault_enumeration", TextOnly: true,
+		RepoInstr: map[string]instrument.Options{".": {MapOrder: true, Step: true}, "internal/importgraph": {MapOrder: true}, "iohelp": {MapOrder: true, Alloc: true, Step: true}},
+		Rule: "ReadFile reading through the simulated link. Inputs: every token string of length 1 and 2 over a 41-token vocabulary exhaustively (length 3 in the thorough tier), printed schemas in varied layouts (indent, CRLF, one-line, comments), the same torn at a random byte, with junk fragments inserted or appended (unterminated comments/strings, stray and non-UTF-8 bytes, partial tokens), token soup. Per input: one fault-free parse under a drawn chunk schedule with the completeness probe (accepted input + one fresh definition must fail or contain it), then a reader failure at EVERY byte offset (inputs <= 400 bytes; 64 sampled offsets beyond) bare, with partial data under a chunk schedule, and transiently, error values from a menu of 4 (wrapped io.EOF excluded). Oracles: no panic; step budget 2e5+200*len on the parser's loops; an error returned by the link => non-nil error from ReadFile; completeness; " +
+			"distinct_nontrivial counts distinct (input origin, outcome, schedule family) and (origin, fault kind, outcome) triples for faults that fired",
+		RandProgs: map[string]int{"quick": 20, "thorough": 80},
+		Runs:      map[string]int{"quick": 3200, "thorough": 90000},
+		Params:    map[string]map[string]int{"thorough": {"tokens3": 1}},
+		Assume:    []string{"an io.Reader error that wraps io.EOF is not in the fault menu: whether that is an I/O error or an end of file is not settled by the property"},
+		RealStub: map[string][]string{"real": {"tokenizer and parser of the working tree (instrumented: loop steps, map order)"}, "stub": {"the file: simnet link with chunk schedule and fault trace"}},
 	},
 }
